@@ -126,7 +126,12 @@ PROPERTIES = {
                 "then receive is the identity (C07_emu_end_to_end, with C06_roundtrip and C07_any_segmentation). E lines: "
                 "seeded histories on the REAL Emulator (Emulator.Receiver(), Dial(\"udp\", Addr()) endpoints with a Receiver "
                 "and a Transmitter, Emulator.TransmitFrame, TransmitFrame on endpoints - also closed ones -, Close) over real "
-                "loopback multicast; what every endpoint's Receiver returned over the whole history is compared with the model.",
+                "loopback multicast; what every endpoint's Receiver returned over the whole history is compared with the model. "
+                "ACTION-SEQUENCE TIE: harness/sockwire reads receiver.go and transmitter.go statement by statement; "
+                "Receiver.Receive and Transmitter.TransmitFrame must equal the programs receive_prog / transmit_prog of "
+                "Socketcan/Program.v, which C07_receive_program_is_model / C07_transmit_program_is_model prove to be the models "
+                "Receiver.receive / Transmitter.transmit when executed step by step (the other functions of the two files are "
+                "compared with reference texts); a difference is reported with the first differing statement.",
         "note": _NOTE + "Glue model boundary: ipv4.PacketConn (x/net) between udpTxRx and the sockets is not modelled; it "
                         "forwards Close and the deadline setters to the net.PacketConn it embeds (that field is replaced by a "
                         "scripted one through reflect/unsafe in the harness) but does not hand ReadFrom/WriteTo to a non-UDP "
@@ -228,6 +233,62 @@ translate_tie.describe(PROPERTIES, "C07", "(here: the split function scanFrames 
                        translate_tie.TIE_NOTE_INT, translate_tie.TIE_NOTE_SLICE)
 
 
+
+def _wire_stage(res):
+    """ACTION-SEQUENCE TIE (DESIGN.md 9.6 "Action-sequence tie for the socketcan family"): the CURRENT text of
+    pkg/socketcan/receiver.go and transmitter.go is read by the strict extractor harness/sockwire (go/parser; one node
+    per statement: depth + canonical text; statement shapes outside its set are errors with file:line) and compared node
+    by node (extracted first_diff) with the reference programs: Receiver.Receive and Transmitter.TransmitFrame are the
+    Coq constants receive_prog / transmit_prog of Socketcan/Program.v, which C07_receive_program_is_model /
+    C07_transmit_program_is_model prove to BE the models Receiver.receive / Transmitter.transmit when executed step by
+    step; the other small functions (constructors, getters, Close, options) are compared with reference texts."""
+    import json as _json, os as _os, subprocess, time as _t
+    t0 = _t.time()
+    scratch = vlib.scratch_dir()
+    try:
+        wexe, log = vlib.build_harness("sockwire", scratch)
+        if wexe is None:
+            res.violation("socketcan action-sequence extractor no longer builds (broken tie)", {"build_log": log[-3000:]}, no_input=True)
+            return
+        drv = vlib.build_driver("socketcan")
+        files = [_os.path.join(vlib.REPO, "pkg", "socketcan", f) for f in ("receiver.go", "transmitter.go")]
+        p = subprocess.run(["bash", "-c", "timeout 120 %s %s | %s wire" % (wexe, " ".join(files), drv)],
+                           stdout=subprocess.PIPE, stderr=subprocess.PIPE, text=True)
+    finally:
+        import shutil as _sh
+        _sh.rmtree(scratch, ignore_errors=True)
+    how = ("harness/sockwire <repo>/pkg/socketcan/receiver.go transmitter.go | socketcan driver `wire` (extracted first_diff, "
+           "receive_prog / transmit_prog of Socketcan/Program.v); the correspondence run of this check supplies a concrete failing "
+           "input where the behaviour at the interfaces changed")
+    stat, reported = None, 0
+    for line in p.stdout.splitlines():
+        text = None
+        if line.startswith("SWSTAT "):
+            stat = _json.loads(line[7:])
+        elif line.startswith("SWERR "):
+            text = "socketcan source is outside the statement shapes the action-sequence extractor accepts: %s" % line[6:][:400]
+        elif line.startswith(("SWDIFF ", "SWMISSING ", "SWUNKNOWN ")):
+            head, _, detail = line.partition(" || ")
+            toks = head.split()
+            text = ("action sequence of %s is no longer the reference program the Receiver/Transmitter model was proved for (%s): %s"
+                    % (toks[1], " ".join(toks[2:]), detail[:500]))
+        if text:
+            reported += 1
+            if reported <= 3:
+                res.violation(text, {"line": line, "how": how}, no_input=True)
+    if stat is None:
+        res.violation("socketcan action-sequence extractor or model driver failed (rc=%s)" % p.returncode,
+                      {"stderr": p.stderr[-2000:], "stdout_tail": p.stdout[-800:]}, no_input=True)
+        return
+    res.cov["action_sequence_tie"] = dict(stat, wall_s=round(_t.time() - t0, 1), rule=(
+        "every function declaration of receiver.go and transmitter.go, statement by statement (signature, depth, canonical "
+        "text) against the reference; Receive and TransmitFrame against the Coq constants proved equal to the models"))
+    res.corr_obligations = list(res.corr_obligations) + [
+        "the statement sequences of Receiver.Receive / Transmitter.TransmitFrame (and the constructors, getters, Close, options) "
+        "read from the current source text equal the reference programs of Socketcan/Program.v, which are proved to be the models "
+        "(C07_receive_program_is_model, C07_transmit_program_is_model)"]
+
+
 def harness_args(pid, tier, seed):
     return ["c06" if pid == "C06" else "c07", seed, "thorough" if tier == "thorough" else "quick"]
 
@@ -253,5 +314,8 @@ def run(res, replay=None):
         translate_tie.run_tie(res, ["wire"])
     else:
         translate_tie.run_tie(res, ["scan"])
+    _wire_stage(res)    # first: its violations name the statement that changed; the run below supplies failing inputs
+    wire_obl = list(res.corr_obligations)
     vlib.standard_run(res, "socketcan", harness_args(pid, res.tier, res.seed), "socketcan", RULES[pid], assumptions,
                       exhaustive=False, timeout=3000 if res.tier == "thorough" else 900)
+    res.corr_obligations = list(res.corr_obligations) + wire_obl
